@@ -3,6 +3,8 @@
 package mux
 
 import (
+	"strings"
+
 	zzv "github.com/issue9/mux/v9/internal/zzverif"
 	"github.com/issue9/mux/v9/types"
 )
@@ -71,7 +73,7 @@ func ZZC15Hdr(n int) {
 	req := zzReq("GET", "/p")
 	ctx := types.NewContext()
 	accept, val, parses := "", "", false
-	switch c := zzv.Choice("accept", 8); c {
+	switch c := zzv.Choice("accept", 10); c {
 	case 0:
 	case 1:
 		accept = "garbage;;="
@@ -85,6 +87,10 @@ func ZZC15Hdr(n int) {
 		accept, val, parses = "a/b; "+wantKey+"=\"1\"", "1", true
 	case 6:
 		accept = "a/b; " + wantKey + "=1; " + wantKey + "=2" // duplicate parameter: a parse error
+	case 7: // parameter names are case-insensitive
+		accept, val, parses = "a/b; "+strings.ToUpper(wantKey)+"=v-3", "v-3", true
+	case 8:
+		accept, val, parses = "A/B;"+strings.ToUpper(wantKey[:1])+wantKey[1:]+"=1", "1", true
 	default:
 		tail := zzv.Bytes("val", n)
 		zzv.Assume(len(tail) > 0)
